@@ -118,7 +118,7 @@ def c07_ir(draw, tier, exclude):
                     return {"c": "cmp2", "lpath": lp, "op": draw(st.sampled_from(sorted(OPS))), "rpath": draw(st.sampled_from(cands))}
             if k == "objlit" and rp:
                 p, tgt = draw(st.sampled_from(rp))
-                nodes = [i for i, nd in enumerate(graph["nodes"]) if nd["c"] != "Vec" and (nd["c"] == tgt or tgt in MI.ancestors(model, nd["c"]))]
+                nodes = [i for i, nd in enumerate(graph["nodes"]) if nd["c"] not in G.EXTRA_NODES and (nd["c"] == tgt or tgt in MI.ancestors(model, nd["c"]))]
                 if nodes:
                     return {"c": "objlit", "path": p, "node": draw(st.sampled_from(nodes)), "op": draw(st.sampled_from(["==", "!="]))}
             if not sp:
@@ -244,7 +244,7 @@ class C07(Check):
         engine = create_engine("sqlite:///:memory:")
         try:
             objs = G.build_graph(model, graph, layer.mod, layer.clss)
-            model_objs = [o for o in objs if type(o).__name__ != "Vec"]
+            model_objs = [o for o in objs if type(o).__name__ not in G.EXTRA_NODES]
             try:
                 layer.gen.Base.metadata.create_all(engine)
                 state = ToDAOState()
